@@ -46,6 +46,7 @@ Definition s_DeepEqual := B "DeepEqual".
 Definition s_Read := B "Read".
 Definition s_Write := B "Write".
 Definition s_String := B "String".
+Definition s_InitDefault := B "InitDefault".
 Definition s_CountSetFields := B "CountSetFields".
 Definition s_Error := B "Error".
 Definition s_Carrying := B "CarryingUnknownFields".
@@ -242,7 +243,7 @@ Definition accessor_ident (ft : features) (f : field) : bytes :=
 
 (* buildStructLike(v, usedName...): [vname] = v.Name, [nn] = usedName or v.Name; returns the Go type name *)
 Definition builtin_methods (ft : features) (vname : bytes) (cat : sl_kind) : list bytes :=
-  [s_Read; s_Write; s_String] ++
+  [s_Read; s_Write; s_String; s_InitDefault] ++
   (if has_dollar vname then [] else
      (match cat with SKUnion => [s_CountSetFields] | _ => [] end) ++
      (match cat with SKException => [s_Error] | _ => [] end) ++
